@@ -236,8 +236,11 @@ def d3(cx: Cx, ob: Ob) -> None:
 def derived_constructions(cx: Cx, fn):
     s = cx.summary(fn)
     out = []
+    me = ("param", fn.self_name) if fn.self_name else None
     for c, ev, ctx in s.calls():
-        if op(c[1]) == "cls" and c[1][1] == CONV:
+        f = c[1]
+        same_class = me is not None and (f == ("attr", me, "__class__") or f == ("call", ("builtin", "type"), (me,), ()))
+        if (op(f) == "cls" and f[1] == CONV) or same_class or (f == ("param", "cls") and fn.is_classmethod):
             out.append((c, ev, ctx))
     return out
 
@@ -320,3 +323,10 @@ def x12(cx: Cx, ob: Ob) -> None:
     from ..rules import package_lints
 
     package_lints(cx, ob, {'api.py'})
+
+
+@obligation("C09-X13", "records are copied and serialised whole: no model_dump(exclude_unset=True) / model_fields_set anywhere in the package (in-place merges do not update pydantic's fields_set)", floor=1)
+def x13(cx: Cx, ob: Ob) -> None:
+    from ..rules import no_fields_set_dependence
+
+    no_fields_set_dependence(cx, ob)
